@@ -51,6 +51,11 @@ end Items
 def Node.named (k : Name) (n : Node) : List Node := n.items.named k
 def Node.hasText (n : Node) : Bool := n.items.hasText
 
+/-- all occurrences of the element reached by a path of child names -/
+def occsAt : List Name → List Node → List Node
+  | [], occs => occs
+  | k :: p, occs => occsAt p (occs.flatMap (Node.named k))
+
 mutual
 /-- the events a reader reports for a well-formed element -/
 def Node.events : Node → List Ev
